@@ -400,6 +400,12 @@ func (it *Interp) intBin(op token.Token, x, y Int, ta, tb types.Type, instr ssa.
 				return it.fromTerm(c.BVBin("bvlshr", x.T, yt))
 			}
 		}
+		// a shift amount that is syntactically small (x & 3, a 2-bit field ...) is forked over its values: such shifts
+		// compute field widths, and everything derived from them folds once the amount is concrete
+		if bound, ok := smallBound(y.T); ok && bound <= 15 {
+			yc := it.concretize(y, 16, "small shift amount")
+			return it.intBin(op, x, CInt(y.W, yc), ta, tb, instr)
+		}
 		// symbolic shift amount: resize to w (saturating)
 		var yt *sym.Term
 		if y.W > w {
@@ -1124,4 +1130,25 @@ func (it *Interp) rangeNext(r *rangeIter, n *ssa.Next) Val {
 		return Tuple{Bool{C: true}, k, v}
 	}
 	return Tuple{Bool{C: false}, it.zeroVal(mt.Key()), it.zeroVal(mt.Elem())}
+}
+
+// smallBound: a syntactic upper bound of a bit-vector term (masks with constants, zero extensions, narrow terms).
+func smallBound(t *sym.Term) (uint64, bool) {
+	if t.IsConst {
+		return t.C, true
+	}
+	switch t.Op {
+	case "bvand":
+		for _, a := range t.Args {
+			if a.IsConst {
+				return a.C, true
+			}
+		}
+	case "zext":
+		return smallBound(t.Args[0])
+	}
+	if t.Sort.K == sym.KBV && t.Sort.W > 0 && t.Sort.W <= 4 {
+		return uint64(1)<<uint(t.Sort.W) - 1, true
+	}
+	return 0, false
 }
